@@ -37,6 +37,8 @@
 #define VP_OPS 1            /* 1: a symbolic flush/sync/none after every append */
 #endif
 
+#define VP_NFILES 2         /* [0] the file, [1] its directory */
+#define VP_MAXFD 2
 #include "envunix/libc.h"
 #include "util/env.c"
 
@@ -205,22 +207,16 @@ harness(void) {
   VP_ASSERT(!vp_hard_fail, "create returns OK only if open(2) succeeded");
   VP_ASSERT(vp_wf != NULL && vp_nopen == 1 && vp_fd_ok(vp_wf->fd), "file object holds the one open descriptor");
   {
-    int i, fl = 0, md = 0, ce = 0;
-    for (i = 0; i < VP_MAXFD; i++) {
-      if (vp_wf->fd == VP_FD0 + i) {
-        fl = vp_fds[i].flags;
-        md = vp_fds[i].mode;
-        ce = vp_fds[i].cloexec;
-        VP_ASSERT(vp_fds[i].name == 0, "the descriptor refers to the requested name");
-      }
-    }
+    int i = vp_wf->fd - VP_FD0, fl, md;
+    fl = vp_fds[i].flags;
+    md = vp_fds[i].mode;
+    VP_ASSERT(vp_fds[i].name == 0, "the descriptor refers to the requested name");
     VP_ASSERT((fl & O_ACCMODE) == O_WRONLY && (fl & O_CREAT), "opened write-only, created if missing");
     if (vp_mode_append)
       VP_ASSERT((fl & O_APPEND) && !(fl & O_TRUNC), "appendable file: O_APPEND and never O_TRUNC (existing contents kept)");
     else
       VP_ASSERT((fl & O_TRUNC) != 0, "truncating create: O_TRUNC");
     VP_ASSERT(md == 0644, "mode 0644");
-    (void)ce;
   }
   VP_ASSERT(vp_wf->pos == 0, "fresh file: empty buffer");
   VP_ASSERT(vp_wf->manifest == nc->manifest, "MANIFEST detection by base name");
